@@ -101,33 +101,38 @@ pub(crate) fn keyval<'s, 'i>(
 
 // keyval = key keyval-sep val
 pub(crate) fn parse_keyval(input: &mut Input<'_>) -> ModalResult<(Vec<Key>, (Key, Item))> {
-    trace(
-        "keyval",
-        (
-            key,
-            cut_err((
-                one_of(KEYVAL_SEP)
-                    .context(StrContext::Expected(StrContextValue::CharLiteral('.')))
-                    .context(StrContext::Expected(StrContextValue::CharLiteral('='))),
-                (
-                    ws.span(),
-                    value,
-                    line_trailing
-                        .context(StrContext::Expected(StrContextValue::CharLiteral('\n')))
-                        .context(StrContext::Expected(StrContextValue::CharLiteral('#'))),
-                ),
-            )),
-        )
-            .try_map::<_, _, std::str::Utf8Error>(|(key, (_, v))| {
-                let mut path = key;
-                let key = path.pop().expect("grammar ensures at least 1");
+    trace("keyval", |input: &mut Input<'_>| {
+        let mut path = key.parse_next(input)?;
+        // Every dotted key segment nests the value one table deeper, count it against the
+        // recursion limit like the tables it stands for (as inside inline tables)
+        let nested = path.len() - 1;
+        input
+            .state
+            .enter_nested(nested)
+            .map_err(|err| winnow::error::ErrMode::from_external_error(input, err).cut())?;
+        let result = cut_err((
+            one_of(KEYVAL_SEP)
+                .context(StrContext::Expected(StrContextValue::CharLiteral('.')))
+                .context(StrContext::Expected(StrContextValue::CharLiteral('='))),
+            (
+                ws.span(),
+                value,
+                line_trailing
+                    .context(StrContext::Expected(StrContextValue::CharLiteral('\n')))
+                    .context(StrContext::Expected(StrContextValue::CharLiteral('#'))),
+            ),
+        ))
+        .parse_next(input);
+        input.state.exit_nested(nested);
+        let (_, v) = result?;
 
-                let (pre, v, suf) = v;
-                let pre = RawString::with_span(pre);
-                let suf = RawString::with_span(suf);
-                let v = v.decorated(pre, suf);
-                Ok((path, (key, Item::Value(v))))
-            }),
-    )
+        let key = path.pop().expect("grammar ensures at least 1");
+
+        let (pre, v, suf) = v;
+        let pre = RawString::with_span(pre);
+        let suf = RawString::with_span(suf);
+        let v = v.decorated(pre, suf);
+        Ok((path, (key, Item::Value(v))))
+    })
     .parse_next(input)
 }
